@@ -493,4 +493,4 @@ MANIFEST = {
             "generic path and are covered by the predicate (known finding for the GRU hidden-sequence gradient).",
 }
 
-MANIFEST_ADDENDUM = 'Oracle additions: byte-swapped float dtypes; tensor seeds of another dtype, integer tensor seeds, float16 array seeds; 9 histories in which a tensor holding a gradient changes shape or is updated in place inside no_autodiff. Round 5: backward(seed) on a former view whose graph was cleared (4 views x 4 seeds x 2 first epochs); the Engine model`s backward starts such a tensor over (startOver).'
+MANIFEST_ADDENDUM = 'Oracle additions: byte-swapped float dtypes; tensor seeds of another dtype, integer tensor seeds, float16 array seeds; 9 histories in which a tensor holding a gradient changes shape or is updated in place inside no_autodiff. Round 5: backward(seed) on a former view whose graph was cleared (4 views x 4 seeds x 2 first epochs); the Engine model`s backward starts such a tensor over (startOver); proved: seeded_graphless_terminal (backward(seed) on a tensor without a creator - a leaf or a former view whose base lingers - stores the broadcast seed as its public .grad and leaves it without a base).'
